@@ -1096,6 +1096,8 @@ init(void)
            SCAN_THRESH, EMIT_THRESH, UNORD_THRESH, expansion.tasks[0].name,
            expansion.tasks[1].name, expansion.tasks[2].name,
            expansion.tasks[3].name, expansion.tasks[4].name, VSA);
+  VERIF_EV("\"e\":\"QueueCaps\",\"input_q\":%u,\"order_q\":%u",
+           input_q.modulus, order_q.modulus);
 }
 
 
